@@ -13,9 +13,17 @@ def registry_global(st, scalar):
     return st.gmap[g[0]]
 
 
-def registry_map(st, scalar):
+def registry_map_key(st, scalar):
     rid = registry_global(st, scalar)
-    return st.side[(rid, 8)], rid
+    keys = [k for k, v in st.side.items() if k[0] == rid and isinstance(v, MapVal)]
+    if len(keys) != 1:
+        raise ExecError('registry object %s: expected exactly one std::map member, found %d' % (scalar, len(keys)))
+    return keys[0]
+
+
+def registry_map(st, scalar):
+    k = registry_map_key(st, scalar)
+    return st.side[k], k[0]
 
 
 def build(world, scalar, solnames, symbolic=True, select=None, prefix='H'):
@@ -33,7 +41,7 @@ def build(world, scalar, solnames, symbolic=True, select=None, prefix='H'):
     handles = ['%s%d' % (prefix, i) for i in range(len(solnames))]
     if symbolic and solnames:
         m, rid = registry_map(st, scalar)
-        m = st.side_mut((rid, 8))
+        m = st.side_mut(registry_map_key(st, scalar))
         hs = []
         new_entries = []
         for (key, erid) in m.entries:
